@@ -8,6 +8,7 @@ CONSTANTS
   BugUseFlagAll = FALSE
   BugOptionalOrigState = FALSE
   BugNames = "none"
+  BugErrorState = "none"
   BugMissingIsOther = FALSE
   BugUsage = "product_drops_right"
 VIEW View
